@@ -1,7 +1,12 @@
 """C07 — number tests: correspondence of the Poisson / NBD / catalog N-tests with Model/NumberTest.lean + direct oracle."""
+import contextlib
 import datetime
+import io
 import math
+import os
+import shutil
 import struct
+import tempfile
 from fractions import Fraction
 
 import numpy
@@ -40,7 +45,14 @@ TRUSTED = ["Lean 4.33 kernel", "axioms: propext, Classical.choice, Quot.sound at
            "harness/c07.py generators and comparison; driver parsing (Proto.lean)"]
 RULE = ("mu in 10^U(-6,5) plus decimal/integer boundary means; n in {0,1,2, floor(mu)+-3, mu+-c*sqrt(mu), U(0,2000), U(0,1e5), "
         "1e5}; NBD variance in (mu, 1e4*mu]; array-level helpers and the public functions on generated GriddedForecast "
-        "(optionally scaled) / CSEPCatalog / CatalogForecast objects; monotonicity on sorted grids of means for fixed n. "
+        "(optionally scaled) / CSEPCatalog / CatalogForecast objects; observed (and synthetic) catalogs that are NOT cut "
+        "to the forecast: events below the lowest magnitude edge (also 1 ulp below it), far above the top edge, outside "
+        "the spatial region - n_obs is the number of events of the catalog for all three tests, which must agree on it; "
+        "call sequences on ONE catalog forecast (list in memory / CSV file with store on / off): optional first pass "
+        "(N-test, get_event_counts, plain loop), then the catalogs are changed in place inside or outside a loop over the "
+        "forecast (filter with a string / a list, truncation of catalog.catalog, replaced list entries), then the N-test "
+        "twice: distribution and deltas must be those of the catalogs as they are now (re-read from file when store is "
+        "off); monotonicity on sorted grids of means for fixed n. "
         "A case is non-trivial when n >= 1 and P(N = n) > 1e-12 (the inclusive/exclusive tail convention is visible), or "
         "for the catalog test when some synthetic size equals n_obs; distinct by (kind, mean, variance, n) / (sizes, n_obs)")
 
@@ -199,31 +211,72 @@ def _region(nx, ny, nm):
     return _REGIONS[key]
 
 
-def _catalog(n, reg, seed):
-    """CSEPCatalog of n in-region events (structured array; fast for n up to 1e5)"""
-    from csep.core.catalogs import CSEPCatalog
+_DTYPE = [('id', 'S256'), ('origin_time', '<i8'), ('latitude', '<f8'), ('longitude', '<f8'), ('depth', '<f8'),
+          ('magnitude', '<f8')]
+
+
+def _catalog_array(n, reg, seed, extras=None):
+    """structured array of n events inside the space-magnitude region plus `extras` = [below, above, outside] events that
+    a catalog not cut to the forecast contains: below the lowest magnitude edge (one of them 1 ulp below it), far
+    above the last edge (the top bin is open: still a target event), outside the spatial region (any magnitude).
+    The order of the rows is shuffled so that the extra events are interleaved."""
     region, mags, nx, ny, nm = reg
     g = numpy.random.default_rng(seed)
-    arr = numpy.zeros(n, dtype=CSEPCatalog.dtype if hasattr(CSEPCatalog, "dtype") else
-                      [('id', 'S256'), ('origin_time', '<i8'), ('latitude', '<f8'), ('longitude', '<f8'),
-                       ('depth', '<f8'), ('magnitude', '<f8')])
-    arr['id'] = numpy.arange(n).astype('S')
-    arr['origin_time'] = 1_600_000_000_000 + numpy.arange(n) * 1000
-    arr['longitude'] = (g.integers(0, nx, n) + 0.5) * 0.1
-    arr['latitude'] = (g.integers(0, ny, n) + 0.5) * 0.1
+    below, above, outside = extras or (0, 0, 0)
+    tot = n + below + above + outside
+    arr = numpy.zeros(tot, dtype=_DTYPE)
+    arr['id'] = numpy.arange(tot).astype('S')
+    arr['origin_time'] = 1_600_000_000_000 + numpy.arange(tot) * 1000
+    arr['longitude'] = (g.integers(0, nx, tot) + 0.5) * 0.1
+    arr['latitude'] = (g.integers(0, ny, tot) + 0.5) * 0.1
     arr['depth'] = 10.0
-    arr['magnitude'] = 4.0 + 0.5 * g.integers(0, nm, n) + 0.25
-    return CSEPCatalog(data=arr, region=region)
+    arr['magnitude'] = 4.0 + 0.5 * g.integers(0, nm, tot) + 0.25
+    m0 = float(mags[0])
+    if below:
+        lo = m0 - g.choice([0.05, 0.1, 0.3, 1.1, 2.5], below)
+        lo[0] = numpy.nextafter(m0, -1.0) if g.random() < 0.5 else lo[0]
+        arr['magnitude'][n:n + below] = lo
+    if above:
+        arr['magnitude'][n + below:n + below + above] = float(mags[-1]) + g.choice([0.5, 2.0, 4.5], above)
+    if outside:
+        sl = slice(n + below + above, tot)
+        arr['longitude'][sl] = g.choice([-1.05, nx * 0.1 + 0.75, 7.35], outside)
+        arr['latitude'][sl] = g.choice([-3.25, ny * 0.1 + 1.15, 0.05], outside)
+        arr['magnitude'][sl] = g.choice([m0 - 0.6, m0 + 0.25], outside)
+    if tot > n:
+        perm = g.permutation(tot)
+        for f in ('latitude', 'longitude', 'magnitude'):
+            arr[f] = arr[f][perm]
+    return arr
 
 
-def _forecast(rng, reg, total):
+def _catalog(n, reg, seed, extras=None):
+    """CSEPCatalog of n in-region events (+ extras, see _catalog_array); structured array: fast for n up to 1e5"""
+    from csep.core.catalogs import CSEPCatalog
+    return CSEPCatalog(data=_catalog_array(n, reg, seed, extras), region=reg[0])
+
+
+def _gen_extras(rng, n):
+    """numbers of [below-minimum-magnitude, above-top-edge, outside-region] events of an uncut catalog"""
+    k = rng.random()
+    if k < 0.45:
+        return None
+    cap = max(1, min(40, n)) if rng.random() < 0.7 else 3
+    e = [rng.randint(0, cap) if rng.random() < 0.7 else 0, rng.randint(0, 3) if rng.random() < 0.3 else 0,
+         rng.randint(0, cap) if rng.random() < 0.4 else 0]
+    if sum(e) == 0:
+        e[0] = rng.randint(1, cap)
+    return e
+
+
+def _forecast(spec, reg):
+    """GriddedForecast of the given total from a JSON-able spec (so that a public case can be replayed)"""
     from csep.core.forecasts import GriddedForecast
     region, mags, nx, ny, nm = reg
-    g = numpy.random.default_rng(rng.randrange(2 ** 32))
-    w = g.uniform(0.01, 1.0, size=(nx * ny, nm)) ** rng.choice([1, 3])
-    scale = None
-    if rng.random() < 0.5:
-        scale = rng.choice([0.5, 2.0, 1 / 365.25, 10 ** rng.uniform(-3, 3), 7 / 365])
+    g = numpy.random.default_rng(spec["wseed"])
+    w = g.uniform(0.01, 1.0, size=(nx * ny, nm)) ** spec["wpow"]
+    scale = spec["scale"]
+    total = float(spec["total"])
     raw_total = total / scale if scale else total
     data = w / w.sum() * raw_total
     f = GriddedForecast(start_time=datetime.datetime(2020, 1, 1), end_time=datetime.datetime(2021, 1, 1),
@@ -233,20 +286,47 @@ def _forecast(rng, reg, total):
     return f, data, scale
 
 
-def _public_case(run, drv, pending, rng, tier):
-    from csep.core import poisson_evaluations as pe, binomial_evaluations as be
-    reg = _region(rng.randint(1, 4), rng.randint(1, 3), rng.randint(1, 3))
+def _gen_public(rng):
+    dims = [rng.randint(1, 4), rng.randint(1, 3), rng.randint(1, 3)]
     mu_t = min(max(_gen_mu(rng), 1e-6), 1e5)
-    f, data, scale = _forecast(rng, reg, mu_t)
+    scale = None
+    spec = dict(wseed=rng.randrange(2 ** 32), wpow=rng.choice([1, 3]), total=repr(mu_t))
+    if rng.random() < 0.5:
+        scale = rng.choice([0.5, 2.0, 1 / 365.25, 10 ** rng.uniform(-3, 3), 7 / 365])
+    spec["scale"] = scale
+    f, data, _ = _forecast(spec, _region(*dims))
     mu = float(f.event_count)
     n = _gen_n(rng, mu) if rng.random() < 0.9 else rng.randint(0, 300)
     if n > 20000 and rng.random() < 0.7:
         n = rng.randint(0, 3000)
-    cat = _catalog(n, reg, rng.randrange(2 ** 32))
+    extras = _gen_extras(rng, n)
+    if extras and rng.random() < 0.5:
+        # keep the TOTAL near the interesting counts: part of the n events become the extra ones
+        n = max(0, n - sum(extras))
+    if extras and n + sum(extras) > N_MAX:
+        extras = None
     nbd = rng.random() < 0.4
-    var = _gen_var(rng, mu) if nbd else None
-    case = dict(kind="public-nbd" if nbd else "public-pois", mu=repr(mu), n=n, var=repr(var), scale=repr(scale),
-                shape=list(data.shape), tag="public")
+    case = dict(kind="public-nbd" if nbd else "public-pois", dims=dims, fspec=spec, n_in=n, extras=extras,
+                cat_seed=rng.randrange(2 ** 32), var=repr(_gen_var(rng, mu)) if nbd else None, tag="public")
+    if rng.random() < 0.5:
+        s2 = rng.choice([0.25, 3.0, 10 ** rng.uniform(-2, 2)])
+        mu2 = math.fsum(data.ravel().tolist()) * s2
+        case["scale2"] = s2
+        case["var2"] = repr(_gen_var(rng, mu2)) if (nbd and 1e-6 <= mu2 <= 1e5) else None
+    return case
+
+
+def _public_case(run, drv, pending, case):
+    from csep.core import poisson_evaluations as pe, binomial_evaluations as be
+    reg = _region(*case["dims"])
+    f, data, scale = _forecast(case["fspec"], reg)
+    mu = float(f.event_count)
+    extras = case.get("extras")
+    n = case["n_in"] + (sum(extras) if extras else 0)      # the number of events of the observed catalog
+    cat = _catalog(case["n_in"], reg, case["cat_seed"], extras)
+    nbd = case["kind"].startswith("public-nbd")
+    var = float(case["var"]) if nbd else None
+    case = dict(case, mu=repr(mu), n=n)
     # the forecast total the test uses is the sum of the (scaled) rates
     tot = math.fsum(data.ravel().tolist()) * (scale if scale else 1.0)
     if not _close(mu, tot, 1e-12):
@@ -258,7 +338,18 @@ def _public_case(run, drv, pending, rng, tier):
         run.oracle_failure(case, f"exception {type(e).__name__}: {e}")
         return
     if res.observed_statistic != n or cat.event_count != n:
-        run.oracle_failure(case, f"observed statistic {res.observed_statistic!r} is not the number of events {n}")
+        run.oracle_failure(case, f"observed statistic {res.observed_statistic!r} is not the number of events {n} of the "
+                                 f"observed catalog (extras below/above/outside: {extras})")
+    if extras:
+        # the same inputs through the other gridded N-test: both count the events of the catalog
+        try:
+            other = pe.number_test(f, cat) if nbd else be.negative_binomial_number_test(f, cat, mu * 2.5 + 1.0)
+            if other.observed_statistic != n:
+                run.oracle_failure(case, f"{'Poisson' if nbd else 'NBD'} N-test on the same catalog uses n_obs = "
+                                         f"{other.observed_statistic!r}, the catalog has {n} events (extras {extras})")
+        except Exception as e:
+            run.oracle_failure(case, f"exception {type(e).__name__}: {e}")
+        run.count("public:uncut-catalog" + (":below-min-mag" if extras[0] else "") + (":outside" if extras[2] else ""))
     if nbd:
         pmf = _nbd_oracle(run, case, mu, var, n, d1, d2)
         i = drv.ask(f"c07_nbd {bits(mu)} {bits(var)} {n} {min(n, int(mu))} {bits(EPS)}")
@@ -267,19 +358,18 @@ def _public_case(run, drv, pending, rng, tier):
         _, pmf = _pois_oracle(run, case, mu, n, d1, d2)
         i = drv.ask(f"c07_pois {bits(mu)} {n} {min(n, int(mu))} {bits(EPS)}")
         pending.append(("pois", case, i, None, d1, d2, n))
-    run.case(case, (case["kind"], mu, var, n) if (n >= 1 and pmf > 1e-12) else None)
+    run.case(case, (case["kind"], mu, var, n, tuple(extras or ())) if (n >= 1 and pmf > 1e-12) else None)
     run.count(case["kind"] + (":scaled" if scale else ":unscaled"))
     # the same forecast object rescaled AFTER a test has read its total: the next test must use the new total
     # (scale is absolute: data = base x last factor)
-    if rng.random() < 0.5:
-        s2 = rng.choice([0.25, 3.0, 10 ** rng.uniform(-2, 2)])
+    if case.get("scale2") is not None:
+        s2 = case["scale2"]
         f.scale(s2)
         mu2 = math.fsum(data.ravel().tolist()) * s2
-        case2 = dict(case, kind=case["kind"] + "-rescaled", mu=repr(mu2), scale2=repr(s2), tag="public-rescaled")
-        if 1e-6 <= mu2 <= 1e5:
+        case2 = dict(case, mu=repr(mu2), tag="public-rescaled")
+        if 1e-6 <= mu2 <= 1e5 and (not nbd or case.get("var2") is not None):
             try:
-                var2 = _gen_var(rng, mu2) if nbd else None
-                case2["var"] = repr(var2)
+                var2 = float(case["var2"]) if nbd else None
                 res2 = be.negative_binomial_number_test(f, cat, var2) if nbd else pe.number_test(f, cat)
                 e1, e2 = float(res2.quantile[0]), float(res2.quantile[1])
             except Exception as e:
@@ -288,15 +378,19 @@ def _public_case(run, drv, pending, rng, tier):
             if not _close(float(f.event_count), mu2, 1e-12):
                 run.oracle_failure(case2, f"after scale({s2!r}) the forecast total is {float(f.event_count)!r}, "
                                           f"the rescaled rates sum to {mu2!r}")
+            if res2.observed_statistic != n:
+                run.oracle_failure(case2, f"observed statistic {res2.observed_statistic!r} is not the number of events {n}")
             if nbd:
                 _nbd_oracle(run, case2, mu2, var2, n, e1, e2)
             else:
                 _pois_oracle(run, case2, mu2, n, e1, e2)
-            run.case(case2, (case2["kind"], mu2, n))
-            run.count(case2["kind"])
+            run.case(case2, (case2["kind"] + "-rescaled", mu2, n))
+            run.count(case2["kind"] + "-rescaled")
 
 
-def _catalog_case(run, drv, pending, rng, tier, sizes=None, nobs=None):
+def _catalog_case(run, drv, pending, rng, tier, sizes=None, nobs=None, extras=None, obs_extras=None):
+    """catalog N-test; `sizes` / `nobs` count the events inside the region, `extras` (one [below, above, outside] triple
+    or None per synthetic catalog) and `obs_extras` add events of catalogs that were not cut to the region"""
     from csep.core import catalog_evaluations as ce
     from csep.core.forecasts import CatalogForecast
     reg = _region(2, 2, 2)
@@ -313,37 +407,194 @@ def _catalog_case(run, drv, pending, rng, tier, sizes=None, nobs=None):
             sizes = [rng.randint(0, 3000) for _ in range(min(ncat, 20))]
         else:
             sizes = [rng.randint(0, 5)] * ncat
-        lo, hi = min(sizes), max(sizes)
-        nobs = rng.choice([rng.choice(sizes), rng.choice(sizes), lo, hi, max(lo - 1, 0), hi + 1, (lo + hi) // 2, 0])
+        if rng.random() < 0.4:
+            pool_e = [None, None, [1, 0, 0], [2, 0, 1], [0, 0, 3], [rng.randint(1, 6), rng.randint(0, 1), rng.randint(0, 2)]]
+            extras = [rng.choice(pool_e) for _ in sizes]
+            obs_extras = rng.choice(pool_e[2:])
+        tot = [k + (sum(e) if e else 0) for k, e in zip(sizes, extras or [None] * len(sizes))]
+        lo, hi = min(tot), max(tot)
+        want = rng.choice([rng.choice(tot), rng.choice(tot), lo, hi, max(lo - 1, 0), hi + 1, (lo + hi) // 2, 0])
+        if obs_extras and sum(obs_extras) > want:
+            obs_extras = [min(want, 1), 0, 0] if want else None
+        nobs = want - (sum(obs_extras) if obs_extras else 0)
+    extras = extras or [None] * len(sizes)
     cache = {}
 
-    def cat_of(k):
-        if k not in cache:
-            cache[k] = _catalog(k, reg, 1000 + k)
-        return cache[k]
+    def cat_of(k, e=None):
+        key = (k, tuple(e) if e else None)
+        if key not in cache:
+            cache[key] = _catalog(k, reg, 1000 + k, e)
+        return cache[key]
     case = dict(kind="catalog", sizes=[int(s) for s in sizes], nobs=int(nobs), tag="catalog")
+    if any(extras) or obs_extras:
+        case.update(extras=extras, obs_extras=obs_extras)
+    # what the property speaks about: the number of events of each catalog
+    sizes = [k + (sum(e) if e else 0) for k, e in zip(sizes, extras)]
+    nobs = nobs + (sum(obs_extras) if obs_extras else 0)
     try:
-        fc = CatalogForecast(catalogs=[cat_of(k) for k in sizes], region=reg[0], name="gen")
-        res = ce.number_test(fc, cat_of(nobs), verbose=False)
+        fc = CatalogForecast(catalogs=[cat_of(k, e) for k, e in zip(case["sizes"], extras)], region=reg[0], name="gen")
+        obs = cat_of(case["nobs"], obs_extras)
+        res = ce.number_test(fc, obs, verbose=False)
         d1, d2 = res.quantile
-        res2 = ce.number_test(fc, cat_of(nobs), verbose=False)   # a second pass over the same forecast
+        res2 = ce.number_test(fc, obs, verbose=False)   # a second pass over the same forecast
     except Exception as e:
         run.oracle_failure(case, f"exception {type(e).__name__}: {e}")
         return
+    _catalog_verdict(run, drv, pending, case, sizes, nobs, res, res2)
+    if any(extras) or obs_extras:
+        run.count("catalog:uncut-catalogs")
+
+
+def _catalog_verdict(run, drv, pending, case, sizes, nobs, res, res2):
+    """oracle + model query for one catalog N-test whose synthetic catalogs NOW hold `sizes` events, the observation `nobs`"""
+    d1, d2 = res.quantile
     ncat = len(sizes)
     kge = sum(1 for s in sizes if s >= nobs)
     kle = sum(1 for s in sizes if s <= nobs)
     keq = sum(1 for s in sizes if s == nobs)
+    if res.observed_statistic != nobs:
+        run.oracle_failure(case, f"observed statistic {res.observed_statistic!r} is not the number of events {nobs} of the "
+                                 f"observed catalog")
     if not (d1 == kge / ncat and d2 == kle / ncat):
-        run.oracle_failure(case, f"quantile={d1!r},{d2!r} expected {kge}/{ncat} {kle}/{ncat}")
-    if tuple(res2.quantile) != (d1, d2) or list(res.test_distribution) != [int(s) for s in sizes]:
-        run.oracle_failure(case, f"second pass / test distribution differ: {res2.quantile!r} {res.test_distribution!r}")
+        run.oracle_failure(case, f"quantile={d1!r},{d2!r} expected {kge}/{ncat} {kle}/{ncat} (catalog sizes {sizes[:20]}, "
+                                 f"n_obs {nobs})")
+    if tuple(res2.quantile) != (d1, d2) or list(res.test_distribution) != [int(s) for s in sizes] \
+            or list(res2.test_distribution) != [int(s) for s in sizes]:
+        run.oracle_failure(case, f"second pass / test distribution differ from the catalog sizes {sizes[:20]}: "
+                                 f"{res2.quantile!r} {list(res.test_distribution)[:20]!r} "
+                                 f"{list(res2.test_distribution)[:20]!r}")
     if Fraction(kge + kle, ncat) != 1 + Fraction(keq, ncat):
         run.oracle_failure(case, "delta1+delta2 != 1 + P(N=n_obs)")
-    run.case(case, ("catalog", tuple(sorted(sizes)), nobs) if keq > 0 else None)
+    run.case(case, (case["kind"], tuple(sorted(sizes)), nobs, str(case.get("seq"))) if keq > 0 else None)
     run.count("catalog:" + ("tie-with-obs" if keq else ("below" if kle == 0 else ("above" if kge == 0 else "between"))))
     i = drv.ask(f"c07_cat {','.join(str(int(s)) for s in sizes)} {int(nobs)}")
     pending.append(("cat", case, i, None, d1, d2, ncat))
+
+
+# ----------------------------------------------------------------------------- call sequences on one catalog forecast
+SEQ_CUTS = [4.0, 4.5, 4.25, 3.7]     # region magnitudes are [4.0, 4.5]; events at 4.25 / 4.75, extras below 4.0
+
+
+def _gen_seq_case(rng, tier):
+    ncat = rng.choice([1, 2, 3, 4, 6, 10, 25])
+    pool = [rng.randint(0, 14) for _ in range(rng.randint(2, 5))]
+    sizes = [rng.choice(pool) for _ in range(ncat)]
+    extras = [[rng.randint(0, 6), rng.randint(0, 1), rng.randint(0, 2)] if rng.random() < 0.7 else None for _ in sizes]
+    mode = rng.choice(["memory", "memory", "store", "store", "nostore"])
+    pre = rng.choice(["none", "none", "ntest", "counts", "loop"])
+    mut = rng.choice(["filter-str", "filter-str", "filter-list", "truncate", "replace", "none"])
+    where = rng.choice(["in-loop", "in-loop", "direct"])
+    if mode == "nostore":
+        where = "in-loop"
+        if mut == "replace":
+            mut = "filter-str"
+    if mode == "store" and pre == "none":
+        where = "in-loop"          # before the first pass the forecast holds a generator, not a list
+    subset = rng.choice(["all", "all", "even", "first"])
+    seq = dict(mode=mode, pre=pre, mut=mut, where=where, subset=subset, cut=rng.choice(SEQ_CUTS),
+               seeds=[rng.randrange(2 ** 31) for _ in sizes], repl=[rng.randint(0, 9), rng.randrange(2 ** 31)])
+    return dict(kind="catalog-seq", sizes=sizes, extras=extras, seq=seq, obs_pick=rng.randrange(6), tag="catalog-seq")
+
+
+def _write_forecast_csv(path, arrays):
+    with open(path, "w") as f:
+        for j, a in enumerate(arrays):
+            if len(a) == 0:
+                f.write(f",,,,,{j},\n")
+                continue
+            for i, row in enumerate(a):
+                f.write(f"{float(row['longitude'])!r},{float(row['latitude'])!r},{float(row['magnitude'])!r},"
+                        f"1992-06-28T12:{(i // 60) % 60:02d}:{i % 60:02d}.0,10.0,{j},{i}\n")
+
+
+def _catalog_seq_case(run, drv, pending, case):
+    """one forecast object: [first pass] -> catalogs changed in place -> N-test (twice). The result must be that of the
+    catalogs as they are when the test runs (for a forecast re-read from file on every pass: those of the file)."""
+    import csep
+    from csep.core import catalog_evaluations as ce
+    from csep.core.catalogs import CSEPCatalog
+    from csep.core.forecasts import CatalogForecast
+    reg = _region(2, 2, 2)
+    seq = case["seq"]
+    arrays = [_catalog_array(k, reg, sd, e) for k, e, sd in zip(case["sizes"], case["extras"], seq["seeds"])]
+    mags = [numpy.array(a['magnitude'], dtype=float) for a in arrays]
+    before = [len(a) for a in arrays]
+    idx = list(range(len(arrays)))
+    chosen = idx if seq["subset"] == "all" else (idx[::2] if seq["subset"] == "even" else idx[:1])
+    cut = float(seq["cut"])
+    after = list(before)
+    for j in chosen:
+        if seq["mut"] in ("filter-str", "filter-list"):
+            after[j] = int(numpy.count_nonzero(mags[j] >= cut))
+        elif seq["mut"] == "truncate":
+            after[j] = before[j] // 2
+        elif seq["mut"] == "replace":
+            after[j] = seq["repl"][0]
+    persistent = seq["mode"] != "nostore"
+    expect = after if persistent else before
+    # n_obs: tied with a current size, with a size before the change, or in between
+    cands = sorted(set(expect + before))
+    pick = case["obs_pick"]
+    nobs = [expect[0], before[0], cands[len(cands) // 2], max(cands), min(cands), max(before[-1] - 1, 0)][pick]
+    tmpdir = None
+    try:
+        with contextlib.redirect_stdout(io.StringIO()):
+            if seq["mode"] == "memory":
+                fc = CatalogForecast(catalogs=[CSEPCatalog(data=a.copy(), region=reg[0], catalog_id=j)
+                                               for j, a in enumerate(arrays)], region=reg[0], name="gen")
+            else:
+                tmpdir = tempfile.mkdtemp(prefix="c07_", dir=os.environ.get("TMPDIR", "/tmp"))
+                path = os.path.join(tmpdir, "forecast.csv")
+                _write_forecast_csv(path, arrays)
+                fc = csep.load_catalog_forecast(path, region=reg[0], store=(seq["mode"] == "store"), name="gen",
+                                                apply_filters=False)
+            obs = _catalog(nobs, reg, 77)
+            first = None
+            if seq["pre"] == "ntest":
+                first = ce.number_test(fc, obs, verbose=False)
+            elif seq["pre"] == "counts":
+                fc.get_event_counts(verbose=False)
+            elif seq["pre"] == "loop":
+                for _ in fc:
+                    pass
+
+            def mutate(j, c):
+                if j not in chosen:
+                    return
+                if seq["mut"] == "filter-str":
+                    c.filter(f"magnitude >= {cut!r}")
+                elif seq["mut"] == "filter-list":
+                    c.filter([f"magnitude >= {cut!r}"])
+                elif seq["mut"] == "truncate":
+                    c.catalog = c.catalog[:len(c.catalog) // 2]
+            if seq["mut"] == "replace":
+                if seq["where"] == "in-loop" or not isinstance(fc.catalogs, list):
+                    for _ in fc:       # a complete pass; afterwards the catalogs are a list on the forecast
+                        pass
+                for j in chosen:
+                    fc.catalogs[j] = CSEPCatalog(data=_catalog_array(seq["repl"][0], reg, seq["repl"][1] + j),
+                                                 region=reg[0], catalog_id=j)
+            elif seq["mut"] != "none":
+                if seq["where"] == "in-loop":
+                    for j, c in enumerate(fc):
+                        mutate(j, c)
+                else:
+                    for j, c in enumerate(fc.catalogs):
+                        mutate(j, c)
+            res = ce.number_test(fc, obs, verbose=False)
+            res2 = ce.number_test(fc, obs, verbose=False)
+    except Exception as e:
+        run.oracle_failure(case, f"exception {type(e).__name__}: {e}")
+        return
+    finally:
+        if tmpdir:
+            shutil.rmtree(tmpdir, ignore_errors=True)
+    if first is not None and list(first.test_distribution) != before:
+        run.oracle_failure(case, f"N-test on the fresh forecast: distribution {list(first.test_distribution)[:20]} is not "
+                                 f"the catalog sizes {before[:20]}")
+    _catalog_verdict(run, drv, pending, case, expect, nobs, res, res2)
+    run.count(f"seq:{seq['mode']}:{seq['mut']}" + (":changed" if expect != before else ""))
+    run.count(f"seq-pre:{seq['pre']}")
 
 
 # ----------------------------------------------------------------------------- monotonicity
@@ -455,9 +706,11 @@ def run(run, rng, tier):
         _mono_grid(run, drv, pending, rng, "nbd")
     _flush(run, drv, pending)
     for _ in range(150 if quick else 2000):
-        _public_case(run, drv, pending, rng, tier)
+        _public_case(run, drv, pending, _gen_public(rng))
     for _ in range(120 if quick else 1500):
         _catalog_case(run, drv, pending, rng, tier)
+    for _ in range(150 if quick else 2500):
+        _catalog_seq_case(run, drv, pending, _gen_seq_case(rng, tier))
     _flush(run, drv, pending)
 
 
@@ -466,12 +719,17 @@ def replay(run, payload):
     drv, pending = Driver(), []
     rng = __import__("random").Random(0)
     k = case.get("kind", "")
-    if k in ("pois", "public-pois"):
+    if k.startswith("public-") and "fspec" in case:
+        _public_case(run, drv, pending, {kk: v for kk, v in case.items() if kk not in ("mu", "n")})
+    elif k == "catalog-seq":
+        _catalog_seq_case(run, drv, pending, case)
+    elif k in ("pois", "public-pois"):
         _pois_case(run, drv, pending, rng, float(case["mu"]), int(case["n"]), "replay")
     elif k in ("nbd", "public-nbd"):
         _nbd_case(run, drv, pending, rng, float(case["mu"]), float(case["var"]), int(case["n"]), "replay")
     elif k == "catalog":
-        _catalog_case(run, drv, pending, rng, "quick", case["sizes"], case["nobs"])
+        _catalog_case(run, drv, pending, rng, "quick", case["sizes"], case["nobs"], case.get("extras"),
+                      case.get("obs_extras"))
     elif k.startswith("mono-"):
         vals = []
         for mu in (float(case["mu1"]), float(case["mu2"])):
